@@ -20,7 +20,7 @@ from .. import seams
 from ..seams import quiet
 
 PROP = 'C17'
-TIERS = {'quick': 1800, 'thorough': 20000}
+TIERS = {'quick': 1800, 'thorough': 50000}
 RULE = ('each run: one link at a seeded ratio of 4-64 system clocks per bit, 1-14 bytes (boundary values 0x00 0xFF 0x55 '
         '0xAA 0x01 0x80 and random) offered with seeded gaps / back-to-back, consumer READY seeded with bounded stalls; '
         'non-trivial = >= 2 bytes delivered and at least one of: back-to-back pair, consumer stall while a byte was '
